@@ -372,19 +372,37 @@ func shutResult(err error) string {
 }
 
 // Shutdown launches a ShutdownContext call; its ctx is cancelled by Expire(h).
-func (w *World) Shutdown() int {
+func (w *World) Shutdown() int { return w.shutdownCall(false) }
+
+// ShutdownPlain launches a Shutdown() call: the entry point without a context.  Nothing can expire; the call
+// comes back through the drain only (Expire(h) does nothing for it).
+func (w *World) ShutdownPlain() int { return w.shutdownCall(true) }
+
+func (w *World) shutdownCall(plain bool) int {
 	w.mu.Lock()
 	w.nH++
 	h := w.nH
 	ch := make(chan string, 1)
 	w.shutCh[h] = ch
-	ctx, cancel := context.WithCancel(context.Background())
-	w.cancel[h] = cancel
+	ctx := context.Background()
+	v := 1
+	if !plain {
+		var cancel context.CancelFunc
+		ctx, cancel = context.WithCancel(ctx)
+		w.cancel[h] = cancel
+		v = 0
+	}
 	w.mu.Unlock()
+	w.R.Emit(sched.Event{Ev: "shutdown.call", H: h, V: v})
 	go func() {
 		role := sched.Role{Kind: "h", ID: h}
 		w.R.Bind(role)
-		err := w.Srv.ShutdownContext(ctx) // parks at the library's gate.shutdown.enter when gated
+		var err error
+		if plain {
+			err = w.Srv.Shutdown() // parks at the library's gate.shutdown.enter when gated
+		} else {
+			err = w.Srv.ShutdownContext(ctx)
+		}
 		res := shutResult(err)
 		w.R.Emit(sched.Event{Ev: "shutdown.returned", H: h, Res: res})
 		ch <- res
